@@ -154,6 +154,19 @@ def directed() -> Iterator[Tuple[str, G.Script]]:
         s.round([s.rd(2, cd.MT_CONNECT, G.p_connect(), src=13)])
         s.round([s.rd(2, cd.MT_CLIENT_SET_NAME, G.p_name(nm))])
         yield f"name_{nm.hex()}", probe(s)
+    # a client that hears the manager's own error log and whose socket is broken gets refused (double removal)
+    for kind in ("badid", "setname", "v2name", "clash"):
+        for lg in (cd.MT_RTMA_LOG_ERROR, cd.ALL_MESSAGE_TYPES, cd.MT_RTMA_LOG_INFO):
+            s = G.Script(); s.accept(3)
+            s.round([s.rd(2, cd.MT_CONNECT, G.p_connect(), src=11)])
+            s.round([s.rd(3, cd.MT_SUBSCRIBE, G.p_i32(cd.MT_CLIENT_CLOSED))])
+            s.round([s.rd(1, cd.MT_SUBSCRIBE, G.p_i32(lg))])
+            bad = {"badid": lambda: s.rd(1, cd.MT_CONNECT, G.p_connect(), src=500),
+                   "setname": lambda: s.rd(1, cd.MT_CLIENT_SET_NAME, G.p_name(b"\xff")),
+                   "v2name": lambda: s.rd(1, cd.MT_CONNECT_V2, G.p_connect_v2(mod_id=5, name=b"\xff")),
+                   "clash": lambda: s.rd(1, cd.MT_CONNECT, G.p_connect(), src=11)}[kind]()
+            s.round([bad], fail={1: "hdr"})
+            yield f"refused_listener_{kind}_{lg}", probe(s)
     # two (three) subscribers dead in one delivery, both orders, monitor subscribed to everything relevant
     for fm in ("hdr", "pay"):
         for watch in (cd.MT_CLIENT_CLOSED, cd.MT_FAILED_MESSAGE, cd.ALL_MESSAGE_TYPES):
